@@ -451,6 +451,26 @@ func (g *frameGen) writes(thorough bool) {
 		return hexOrDash(p.bytes(1 + p.intn(40)))
 	}
 	pads := []int{0, 0, 0, 9, 10, 100, 254, 255}
+	// PUSH_PROMISE fields (promised id, END_HEADERS, padding, short blocks) come from a stream of their own, so that
+	// the operations of every other type are the ones a seed has always produced
+	q := newPrng(p.s ^ 0xf14)
+	promised := func() uint32 {
+		switch q.intn(8) {
+		case 0:
+			return 0
+		case 1:
+			return 1
+		case 2:
+			return 1<<31 - 1
+		case 3:
+			return 1 << 31 // reserved bit alone: must not reach the wire
+		case 4:
+			return 1<<32 - 1
+		case 5:
+			return uint32(2 + 2*q.intn(500))
+		}
+		return uint32(q.next())
+	}
 	n := 400
 	if thorough {
 		n = 4000
@@ -466,7 +486,16 @@ func (g *frameGen) writes(thorough bool) {
 		g.wr("HEADERS", sid(), 0, pad, fmt.Sprintf("es=%d eh=%d prio=%d dep=%d w=%d frag=%s", p.intn(2), p.intn(2), prio, u31()*uint32(prio), p.intn(256)*prio, blob()))
 		g.wr("PRIORITY", sid(), 0, 0, fmt.Sprintf("dep=%d w=%d", u31(), p.intn(256)))
 		g.wr("RST_STREAM", sid(), 0, 0, fmt.Sprintf("code=%d", u32()))
-		g.wr("PUSH_PROMISE", sid(), 0, 0, fmt.Sprintf("frag=%s", blob()))
+		ppSid, ppFrag := sid(), blob()
+		if q.chance(1, 2) {
+			// header blocks of 0..5 octets: around the four octets of the promised id in front of them
+			ppFrag = hexOrDash(q.bytes(q.intn(6)))
+		}
+		ppPad := pads[q.intn(len(pads))]
+		if ppPad != 0 && q.chance(1, 2) {
+			ppPad = 9 + q.intn(247)
+		}
+		g.wr("PUSH_PROMISE", ppSid, 0, ppPad, fmt.Sprintf("promised=%d eh=%d frag=%s", promised(), q.intn(2), ppFrag))
 		g.wr("PING", 0, 0, 0, fmt.Sprintf("ack=%d data=%s", p.intn(2), hexOrDash(p.bytes(8))))
 		g.wr("GOAWAY", 0, 0, 0, fmt.Sprintf("last=%d code=%d debug=%s", u31(), u32()&(1<<31-1), blob()))
 		ws := uint32(0)
